@@ -44,7 +44,13 @@ def run_query(fit, backend, a, thorough=False):
         r = fit.asymmetric_parameter_errors
         return dict(asym=None if r is None else np.array(r))
     if q == "profile":
-        kw = dict(cl=0.9) if a["bounded"] else {}
+        kw = {}
+        if a["bounded"] == "cl":
+            kw = dict(cl=0.9)
+        elif a["bounded"] == "lowhigh":
+            i = list(fit.parameter_names).index(p)
+            v, s_ = float(fit.parameter_values[i]), float(fit.parameter_errors[i])
+            kw = dict(low=v - 2.0 * s_, high=v + 2.0 * s_)
         prof, arrows = fit._fitter.profile(p, size=7, **kw)
         return dict(profile=np.array(prof))
     if q == "contour":
@@ -68,6 +74,13 @@ def same_answer(r1, r2):
         if a is None or b is None:
             if a is not b and not (a is None and b is None):
                 return "%s: %r vs %r" % (k, a, b)
+            continue
+        if k == "profile" and isinstance(a, np.ndarray) and a.shape == b.shape and a.ndim == 2:
+            # the scanned range is value +- k sigma with the CURRENT error estimate, which fluctuates at the per-cent level between
+            # re-minimisations: compare the grids within 5 % of their span and the cost values within 0.25 (errordef units)
+            span = max(float(np.ptp(a[0])), 1e-12)
+            if np.max(np.abs(a[0] - b[0])) > 0.05 * span or not np.allclose(a[1], b[1], rtol=0.05, atol=0.25):
+                return "%s: %s vs %s" % (k, np.array2string(a.ravel()[:6], precision=5), np.array2string(b.ravel()[:6], precision=5))
             continue
         if isinstance(a, np.ndarray):
             if a.shape != b.shape or not np.allclose(a, b, rtol=0.03, atol=2e-3, equal_nan=True):
@@ -120,7 +133,7 @@ def replay_walk(walk):
             after = snapshot(fit)
             d = moved(before, after, sigma)
             if d:
-                viol(k, "QueryDoesNotMove: %s%s" % (a["q"], " (bounded)" if a.get("bounded") else ""), dict(action=a, moved=d))
+                viol(k, "QueryDoesNotMove: %s%s" % (a["q"], (" (%s)" % a["bounded"]) if a.get("bounded") not in (None, "no") else ""), dict(action=a, moved=d))
                 return issues
             key = (a["q"], a["p"], a.get("bounded"))
             if key in answers:
